@@ -71,15 +71,15 @@ func c10samples() []c10sample {
 			"<style>body{background:url(/bg.png)} .x{background:url('//cdn.example.com/y.png')}</style></head><body>",
 			"<img src=\"i.png\" srcset=\"a.png 1x, b.png 2x\" style=\"background:url('s.png')\" data-item='{\"u\":\"http://example.com/di.png\"}'>",
 			"<script type=\"application/json\">{\"u\":\"http://example.com/j.js\"}</script><script>var x={\"v\":\"http://example.com/v.mp4\"};</script>",
-			"<a href=\"/next\" onclick=\"window.location='/w'\">n</a><meta content=\"http://example.com/m\"><video src=v.mp4></video>", "</body></html>"}},
+			"<a href=\"/next?s=1;t=2&u=3\" onclick=\"window.location='/w'\">n</a><meta content=\"http://example.com/m\"><video src=v.mp4></video>", "</body></html>"}},
 		// the same page cut finer around the constructs with their own parsing code: inline script payloads,
 		// srcset lists, CSS url() values
 		{name: "html-script", ctype: "text/html; charset=utf-8", uri: "http://example.com/dir/app.html", status: 200, chunks: []string{
 			"<!DOCTYPE html><html><body><script>", "window.__STATE__", "=", "{\"u\":\"http://example.com/s.png\",\"n\":{\"v\":\"/w.js\"}", "}", ";</script>", "</body></html>"}},
 		{name: "html-lists", ctype: "text/html; charset=utf-8", uri: "http://example.com/dir/pics.html", status: 200, chunks: []string{
-			"<!DOCTYPE html><html><body><img srcset=\"", "a.png 1x", ", ", "b.png 2x", "\" style=\"background:url(", "'s.png'", ")\"></body></html>"}},
+			"<!DOCTYPE html><html><body><img srcset=\"", "a.png 1x", ", ", "b.png 2x\"><picture><source srcset=\"", "c.webp 480w", ", ", "d.webp 800w\"></picture></body></html>"}},
 		{name: "json", ctype: "application/json", uri: "http://example.com/api/doc.json", status: 200, chunks: []string{
-			"{\"a\":", "\"http://example.com/a.png\",", "\"b\":[", "\"http://example.com/p\",{\"c\":\"{\\\"d\\\":\\\"http://example.com/d.css\\\"}\"}", "],", "\"n\":null,\"t\":true", "}"}},
+			"{\"a\":", "\"http://example.com/a.png\",", "\"b\":[", "\"http://example.com/p?u=1;v=2\",{\"c\":\"{\\\"d\\\":\\\"http://example.com/d.css\\\"}\"}", "],", "\"n\":null,\"t\":true", "}"}},
 		{name: "xml", ctype: "application/xml", uri: "http://example.com/feed.xml", status: 200, chunks: []string{
 			"<?xml version=\"1.0\" encoding=\"UTF-8\"?>", "<root xmlns:m=\"http://ns.example/\">", "<item href=\"http://example.com/a.png\">", "<![CDATA[http://example.com/c]]>",
 			"</item><m:x url='http://example.com/x.mp4'/>", "<t>http://example.com/t see http://example.com/u.gif</t>", "</root>"}},
@@ -96,9 +96,9 @@ func c10samples() []c10sample {
 			"#EXTM3U\n", "#EXT-X-TARGETDURATION:10\n", "#EXT-X-KEY:METHOD=AES-128,URI=\"k.key\"\n", "#EXTINF:9.0,\n", "s1.ts\n", "#EXTINF:9.0,\ns2.ts\n", "#EXT-X-ENDLIST\n"}},
 		{name: "pdf", ctype: "application/pdf", uri: "http://example.com/doc.pdf", status: 200, chunks: c10pdf()},
 		{name: "text", ctype: "text/plain", uri: "http://example.com/notes.txt", status: 200, chunks: []string{
-			"see http://example.com/a ", "and https://example.com/b?x=1&y=2 ", "(http://example.com/c) ", "ftp://example.com/d ", "www.example.com/e ", "http://example.com/f#frag ", "end\n"}},
+			"see http://example.com/a ", "and https://example.com/b?x=1&y=2 ", "(http://example.com/c) ", "http://example.com/d?p=1;q=2 ", "www.example.com/e ", "http://example.com/f#frag ", "end\n"}},
 		{name: "location", ctype: "text/html", uri: "http://example.com/moved", status: 302, header: "Location", chunks: []string{
-			"http", "://", "example.com", ":8080", "/new/", "path?x=1", "#f"}},
+			"http", "://", "example.com", ":8080", "/new/", "path?x=1;y=2&z=3", "#f"}},
 		{name: "link", ctype: "text/html", uri: "http://example.com/linked.html", status: 200, header: "Link", chunks: []string{
 			"<http://example.com/next>", "; rel=\"next\"", ", ", "<http://example.com/prev>", "; rel=prev", "; title=\"a, b\"", ", </rel>; foo"}},
 		{name: "content-type", ctype: "", uri: "http://example.com/typed", status: 200, header: "Content-Type", chunks: []string{
